@@ -192,7 +192,9 @@ func checkSQLScope(r *vx.Run) {
 		}},
 		{"GetLastLog", func() { _, _ = st.GetLastLog(ctx) }},
 		{"ReadLogWithIdempotencyKey", func() { _, _ = st.ReadLogWithIdempotencyKey(ctx, "k") }},
-		{"GetTransactions", func() { _, _ = st.GetTransactions(ctx, ledgerstore.NewGetTransactionsQuery(volOpts(nil, false, false))) }},
+		{"GetTransactions", func() {
+			_, _ = st.GetTransactions(ctx, ledgerstore.NewGetTransactionsQuery(volOpts(nil, false, false)))
+		}},
 		{"GetTransactions(volumes)", func() { _, _ = st.GetTransactions(ctx, ledgerstore.NewGetTransactionsQuery(volOpts(nil, true, true))) }},
 		{"GetTransactions(pit,volumes)", func() { _, _ = st.GetTransactions(ctx, ledgerstore.NewGetTransactionsQuery(volOpts(&pit, true, true))) }},
 		{"GetTransactions(account filter)", func() {
@@ -201,7 +203,9 @@ func checkSQLScope(r *vx.Run) {
 		{"GetTransactions(pit,metadata filter)", func() {
 			_, _ = st.GetTransactions(ctx, ledgerstore.NewGetTransactionsQuery(volOpts(&pit, false, false).WithQueryBuilder(query.Match("metadata[k]", "v"))))
 		}},
-		{"CountTransactions", func() { _, _ = st.CountTransactions(ctx, ledgerstore.NewGetTransactionsQuery(volOpts(nil, false, false))) }},
+		{"CountTransactions", func() {
+			_, _ = st.CountTransactions(ctx, ledgerstore.NewGetTransactionsQuery(volOpts(nil, false, false)))
+		}},
 		{"GetTransactionWithVolumes", func() {
 			_, _ = st.GetTransactionWithVolumes(ctx, ledgerstore.NewGetTransactionQuery(big.NewInt(1)).WithExpandVolumes().WithExpandEffectiveVolumes())
 		}},
@@ -213,7 +217,9 @@ func checkSQLScope(r *vx.Run) {
 		{"GetTransaction", func() { _, _ = st.GetTransaction(ctx, big.NewInt(1)) }},
 		{"GetTransactionByReference", func() { _, _ = st.GetTransactionByReference(ctx, "r") }},
 		{"GetLastTransaction", func() { _, _ = st.GetLastTransaction(ctx) }},
-		{"GetAccountsWithVolumes", func() { _, _ = st.GetAccountsWithVolumes(ctx, ledgerstore.NewGetAccountsQuery(volOpts(nil, false, false))) }},
+		{"GetAccountsWithVolumes", func() {
+			_, _ = st.GetAccountsWithVolumes(ctx, ledgerstore.NewGetAccountsQuery(volOpts(nil, false, false)))
+		}},
 		{"GetAccountsWithVolumes(pit,volumes)", func() {
 			_, _ = st.GetAccountsWithVolumes(ctx, ledgerstore.NewGetAccountsQuery(volOpts(&pit, true, true)))
 		}},
